@@ -12,6 +12,11 @@
 
 #include "simple_private.h"
 
+#if defined(TUKAANI_PROJECT_XZ_VERIF) && !defined(VERIF_BCJ_LOOP_CONTRACT)
+// Verification hook: /verif's harness defines this to a CBMC loop contract.
+#	define VERIF_BCJ_LOOP_CONTRACT
+#endif
+
 
 static size_t
 powerpc_code(void *simple lzma_attribute((__unused__)),
@@ -21,7 +26,11 @@ powerpc_code(void *simple lzma_attribute((__unused__)),
 	size &= ~(size_t)3;
 
 	size_t i;
+#ifdef TUKAANI_PROJECT_XZ_VERIF
+	for (i = 0; i < size; i += 4) VERIF_BCJ_LOOP_CONTRACT {
+#else
 	for (i = 0; i < size; i += 4) {
+#endif
 		// PowerPC branch 6(48) 24(Offset) 1(Abs) 1(Link)
 		if ((buffer[i] >> 2) == 0x12
 				&& ((buffer[i + 3] & 3) == 1)) {
